@@ -1,6 +1,7 @@
 package main
 
 import (
+	"fmt"
 	"go/constant"
 	"go/token"
 	"go/types"
@@ -360,6 +361,155 @@ func checkResolverTailSSA(res *Result, S *Streams, typ, method string) {
 		}
 	}
 	res.check(nCalls > 0 && nCalls == nReturned, "C14-R2", which, pos(fn), "the result of the callback invoked is what the branch yields (unchanged)", "some callback results are not passed on")
+	// sentinel discipline at the exits: what a return yields is decided by which assertion is
+	// known to have failed there
+	globalOf := func(ff *FuncFacts, r *ssa.Return, v ssa.Value) string {
+		v = ff.resolve(r, v)
+		if ld, ok := v.(*ssa.UnOp); ok {
+			if g, ok := ld.X.(*ssa.Global); ok {
+				return g.Name()
+			}
+		}
+		return valueLabel(v)
+	}
+	for _, f := range fns {
+		ff := computeFacts(f)
+		var cbAsserts, valAsserts []*ssa.Extract
+		for _, b := range f.Blocks {
+			for _, ins := range b.Instrs {
+				ta, ok := ins.(*ssa.TypeAssert)
+				if !ok || !ta.CommaOk {
+					continue
+				}
+				okx := extractOf2(ta, 1)
+				if okx == nil {
+					continue
+				}
+				if _, isSig := ta.AssertedType.Underlying().(*types.Signature); isSig {
+					cbAsserts = append(cbAsserts, okx)
+				} else if _, isP := ta.X.(*ssa.Parameter); isP {
+					if _, isI := ta.AssertedType.Underlying().(*types.Interface); isI {
+						valAsserts = append(valAsserts, okx)
+					}
+				}
+			}
+		}
+		nPU, nCA := 0, 0
+		for _, r := range returnsIn(f) {
+			st := ff.at[r]
+			if st == nil || len(r.Results) == 0 {
+				continue
+			}
+			errName := globalOf(ff, r, r.Results[len(r.Results)-1])
+			for _, okx := range valAsserts {
+				if st.facts[fact{ff.canon(st, okx), fFALSE, ""}] {
+					nCA++
+					res.check(errName == "errCannotTypeAssertType", "C14-R2", which, pos(r), "a value that does not satisfy its own type's interface yields errCannotTypeAssertType", "this exit yields "+errName)
+				}
+			}
+			if method == "Apply" {
+				for _, okx := range cbAsserts {
+					if st.facts[fact{ff.canon(st, okx), fFALSE, ""}] {
+						nPU++
+						res.check(errName == "ErrPredicateUnmatched", "C14-R2", which, pos(r), "a predicate for another type yields ErrPredicateUnmatched", "this exit yields "+errName)
+					}
+				}
+			}
+		}
+		if len(valAsserts) > 0 {
+			res.check(nCA >= len(valAsserts), "C14-R2", which, pos(f), "every value assertion has an exit for its failure", fmt.Sprintf("%d assertions, %d failure exits", len(valAsserts), nCA))
+		}
+		if method == "Apply" && len(cbAsserts) > 0 {
+			res.check(nPU >= len(cbAsserts), "C14-R2", which, pos(f), "every predicate assertion has an exit for its failure", fmt.Sprintf("%d assertions, %d failure exits", len(cbAsserts), nPU))
+		}
+	}
+	// JSONResolver: a multi-valued 'type' moves on to the next string only on ErrUnhandledType
+	if typ == "JSONResolver" {
+		ff := computeFacts(fn)
+		nLoopCalls := 0
+		for _, b := range fn.Blocks {
+			for _, ins := range b.Instrs {
+				c, ok := ins.(*ssa.Call)
+				if !ok || c.Common().IsInvoke() {
+					continue
+				}
+				// the per-string dispatch: a call of the method's own closure
+				if callee := c.Common().StaticCallee(); callee == nil || callee.Parent() != fn {
+					continue
+				}
+				loop := loopBlocks(c.Block())
+				if len(loop) == 0 {
+					continue
+				}
+				H := loopHeader(loop)
+				if H == nil {
+					continue
+				}
+				nLoopCalls++
+				// comparisons of the call's result with ErrUnhandledType
+				var cmps []*ssa.BinOp
+				for _, bb := range fn.Blocks {
+					for _, i2 := range bb.Instrs {
+						bo, ok := i2.(*ssa.BinOp)
+						if !ok || bo.Op != token.EQL {
+							continue
+						}
+						isRes := func(v ssa.Value) bool { return v == ssa.Value(c) }
+						isUnh := func(v ssa.Value) bool {
+							ld, ok := v.(*ssa.UnOp)
+							if !ok {
+								return false
+							}
+							g, ok := ld.X.(*ssa.Global)
+							return ok && g.Name() == "ErrUnhandledType"
+						}
+						if (isRes(bo.X) && isUnh(bo.Y)) || (isRes(bo.Y) && isUnh(bo.X)) {
+							cmps = append(cmps, bo)
+						}
+					}
+				}
+				okAll := len(cmps) > 0
+				// the region in which this string's dispatch has happened is what the call's block
+				// dominates; leaving it for the rest of the loop is "trying the next string"
+				dom := c.Block()
+				for lb := range loop {
+					if !dom.Dominates(lb) {
+						continue
+					}
+					for _, sc := range lb.Succs {
+						if !loop[sc] || (dom.Dominates(sc) && sc != H) {
+							continue
+						}
+						var st *factState
+						if es := ff.edgeIn[sc]; len(es) == len(sc.Preds) {
+							for i, pr := range sc.Preds {
+								if pr == lb {
+									st = es[i]
+								}
+							}
+						}
+						if st == nil {
+							st = ff.at[lb.Instrs[len(lb.Instrs)-1]]
+						}
+						if st == nil {
+							continue // infeasible
+						}
+						hit := false
+						for _, bo := range cmps {
+							if st.facts[fact{ff.canon(st, bo), fTRUE, ""}] {
+								hit = true
+							}
+						}
+						if !hit {
+							okAll = false
+						}
+					}
+				}
+				res.check(okAll, "C14-R2", which, pos(c), "for a 'type' array the next string is tried only where the previous one gave ErrUnhandledType", "the loop goes on to the next type string on another condition (a matched type whose callback failed, or a missing callback, would be skipped over)")
+			}
+		}
+		res.check(nLoopCalls >= 1, "C14-R2", which, pos(fn), "a 'type' array is handled by trying its strings in a loop", "no per-string dispatch inside a loop")
+	}
 	want := []string{"ErrUnhandledType"}
 	switch method {
 	case "Apply":
